@@ -166,6 +166,12 @@ def o5_removal(steps, cfg, history):
             for rel in pre.cache:
                 if rel not in post.cache and rel in needed:
                     out.append((f"step {st['i']} {show_cmd(c)}: deleted object {rel}, still referred to by tracked path {needed[rel]} (not a target)", {'kind': 'deleted-referenced-object'}))
+        if c['op'] == 'remove' and c.get('only_version') and c.get('_only_hex'):
+            # --only-version: nothing but objects of the designated version is deleted
+            for rel in pre.cache:
+                if rel not in post.cache and not addr_parts(rel)[1].startswith(c['_only_hex']):
+                    out.append((f"step {st['i']} {show_cmd(c)}: deleted object {rel}, which is not the designated version {c['_only_hex']}",
+                                {'kind': 'only-version-deleted-other'}))
         if c['op'] == 'untrack' and st['rc'] == 0:
             for t in targets:
                 if t not in pre.recs: continue
@@ -556,8 +562,8 @@ def run_property(chk, pid, oracles, want=('main',), restore=None, nq=280, nt=300
         st_tie['histories'] += 1
         for c in h:
             chk.count('op:' + c['op'])
-            for k in ('method', 'tob', 'force', 'no_commit', 'all_versions', 'no_recheck', 'no_parallel'):
-                if c.get(k): chk.count(f"opt:{c['op']}.{k}" + (f"={c[k]}" if isinstance(c[k], str) else ''))
+            for k in ('method', 'tob', 'force', 'no_commit', 'all_versions', 'only_version', 'no_recheck', 'no_parallel', 'restore_versions'):
+                if c.get(k): chk.count(f"opt:{c['op']}.{k}" + (f"={c[k]}" if isinstance(c[k], str) and k != 'restore_versions' else ''))
         chk.count(f"cfg:algo={cfg['algo']}"); chk.count(f"cfg:method={cfg['method']}"); chk.count(f"cfg:tob={cfg['tob']}")
         if steps and steps[0]['cmd']['op'] == 'harness-error':
             chk.disagreement('repo-histories', [show_cmd(c) for c in h], steps[0]['err'], '', 'harness error')
